@@ -163,10 +163,16 @@ def eth_class(t):
     return "other"
 
 
+def rt(n):
+    """an int object built at run time (never an interned / constant-folded one): `is` on it behaves like `is` in production"""
+    return int(str(n)) if isinstance(n, int) and not isinstance(n, bool) else n
+
+
 def excname(e):
     return {"exc": type(e).__name__}
 
 
+NOREF = object()
 OPTS6 = [(zd, sd, v4) for zd in (True, False) for sd in (True, False) for v4 in (None, True, False)]
 
 
@@ -253,7 +259,7 @@ class C16(Check):
         self.A, self.U = A, U
         self.stats = {}
         self.variant = self.detect_variant()
-        if getattr(A, "_inet_aton", None) is not None and self.variant["ip4"]:
+        if getattr(A, "_inet_aton", None) is not None:
             self.anchors = list(self.anchors) + [("pox/lib/addresses.py", "_inet_aton")]
 
     # Which of the proposed repairs fixes/C16_{ip4_text,ip6_text,eth_text,cidr,eth_seq}.diff the tree under test has: read off the
@@ -287,6 +293,24 @@ class C16(Check):
                      "ip6": ["_hex_digits = '0123456789abcdefABCDEF'"], "eth": ["_eth_hex_digits = b'0123456789abcdefABCDEF'"]}
 
     def detect_variant(self):
+        """Which model variant to drive is decided by probing behaviour on one witness per family (HARDENING item 8); the source
+        shapes are only a cross-check recorded in the evidence, and a tree whose source has an unknown shape is still run."""
+        A = self.A
+        def accepts(f):
+            try: f(); return True
+            except Exception: return False
+        probed = {"ip4": not accepts(lambda: A.IPAddr("10.1")), "ip6": not accepts(lambda: A.IPAddr6("1:2:3")),
+                  "eth": not accepts(lambda: A.EthAddr("0x1:2:3:4:5:6")), "cidr": not accepts(lambda: A.parse_cidr("10.0.0.0/8/9")),
+                  "seq": not accepts(lambda: A.EthAddr([1, 2, 3]))}
+        self.variant_inexact = []
+        try:
+            src = self.source_variant()
+            if src != probed: self.variant_inexact.append("source shapes say %r, behaviour says %r" % (src, probed))
+        except Exception as e:
+            self.variant_inexact.append("source shape not recognised: %s" % e)
+        return probed
+
+    def source_variant(self):
         import ast, os
         path = os.path.join(common.REPO, "pox/lib/addresses.py")
         tree = ast.parse(open(path).read())
@@ -317,7 +341,7 @@ class C16(Check):
             out[fam] = verdicts[0]
         # a function that is neither exactly the original nor exactly the repaired text is still run (against the nearer model
         # variant): the correspondence and the oracle decide; the evidence records that the shape was not the known one
-        self.variant_inexact = inexact
+        self.variant_inexact = list(getattr(self, "variant_inexact", [])) + inexact
         return out
 
     def extra_evidence(self):
@@ -348,7 +372,7 @@ class C16(Check):
             if pat >> i & 1:
                 out += b"\0\0"
             else:
-                g = rng.choice([1, 0xff, 0x100, 0xffff, 0xabc, 0x10, rng.randrange(1, 65536), rng.randrange(1, 65536)])
+                g = rng.choice([1, 0xff, 0x100, 0xffff, 0xabc, 0x10, 0x7fff, 0x8000, rng.randrange(1, 65536), rng.randrange(1, 65536)])
                 out += g.to_bytes(2, "big")
         return out
 
@@ -502,7 +526,9 @@ class C16(Check):
             c.append({"op": "eth_text", "t": t})
         for vals in ([1, 2, 3, 4, 5, 6], [0] * 6, [255] * 6, [1, 2, 3], [], [1, 2, 3, 4, 5, 6, 7], [1, 2, 3, 4, 5, 256], [-1, 2, 3, 4, 5, 6]):
             for kind in ("list", "tuple"): c.append({"op": "eth_seq", "kind": kind, "vals": vals})
-        c.append({"op": "eth_seq", "kind": "bytearray", "vals": [1, 2, 3, 4, 5, 6]}); c.append({"op": "eth_seq", "kind": "bytearray", "vals": [1, 2]})
+        for kind in ("bytearray", "memoryview", "array", "bytes"):
+            for vals in ([1, 2, 3, 4, 5, 6], [0] * 6, [255, 128, 127, 0, 1, 254]): c.append({"op": "eth_seq", "kind": kind, "vals": vals})
+        c.append({"op": "eth_seq", "kind": "bytearray", "vals": [1, 2]})
         # --- non-ASCII look-alikes: every position of representative valid texts (str form, and UTF-8 bytes form where the API takes bytes)
         for t in ["10.20.30.40", "0.0.0.0", "255.1.2.199"]:
             for u in uni_variants(t):
@@ -521,6 +547,45 @@ class C16(Check):
                 c.append({"op": "ip6_parse_cidr", "t": u, "allow_host": False})
                 c.append({"op": "ip6_innet_text", "a": "fe80" + "00" * 13 + "01", "net": u})
         for u in uni_variants("24") + uni_variants("255.255.0.0"): c.append({"op": "ip4_getnet", "a": self.r4(0xc0a80a5a), "arg": u})
+        # --- truncations: every proper prefix and suffix of valid texts (must be rejected, or be the valid text they happen to be)
+        for t in ["10.20.30.40", "255.255.255.255"]:
+            for i in range(len(t) + 1):
+                c.append({"op": "ip4_text", "t": t[:i]}); c.append({"op": "ip4_text", "t": t[i:]})
+        for t in ["2001:db8::8a2e:370:7334", "::ffff:1.2.3.4", "1:2:3:4:5:6:7:8", "1:2:3:4:5:6:1.2.3.4", "fe80::"]:
+            for i in range(len(t) + 1):
+                c.append({"op": "ip6_text", "t": t[:i]}); c.append({"op": "ip6_text", "t": t[i:]})
+        for t in ["01:23:45:67:89:ab", "0123456789ab", "1:2:3:4:5:6", "01-23-45-67-89-ab"]:
+            for i in range(len(t) + 1):
+                c.append({"op": "eth_text", "t": t[:i]}); c.append({"op": "eth_text", "t": t[i:]})
+        for t in ["10.1.0.0/16", "10.1.0.0/255.255.0.0", "fe80::/10", "fe80::/ffc0::"]:
+            for i in range(len(t) + 1):
+                for u in (t[:i], t[i:]):
+                    c.append({"op": "ip6_parse_cidr", "t": u, "allow_host": False} if ":" in t else {"op": "ip4_parse_cidr", "t": u, "infer": True, "allow_host": False})
+        for t in ["00-00-00-00-00-01", "00-00-00-00-00-01|258"]:
+            for i in range(len(t) + 1): c.append({"op": "dpid_parse", "t": t[:i]}); c.append({"op": "dpid_parse", "t": t[i:]})
+        # --- method sequences on the same objects: per-instance / per-class hidden state, aliasing
+        import itertools as _it
+        for raw in ("7f000001", "ff000001", "000000ff", "80000000", "00000000", "c0a80a5a"):
+            o = [{"k": "ip4", "raw": raw}, {"k": "ip4", "raw": raw[:6] + "%02x" % (int(raw[6:], 16) ^ 1)}]
+            acc = [[0, "un", True, True], [0, "un", False, True], [0, "sn", True, False], [0, "sn", False, False], [0, "uprop", True], [0, "uprop", False]]
+            for perm in list(_it.permutations(acc, 3))[::7]:
+                c.append({"op": "objs", "objs": o, "steps": [list(x) for x in perm] + [[0, "str"], [0, "raw"], [1, "un", True, True], [1, "str"], [0, "un", False, False], [0, "hash"]]})
+            c.append({"op": "objs", "objs": o, "steps": [[0, "str"], [1, "str"], [0, "repr"], [1, "repr"], [0, "eq", 1], [1, "eq", 0], [0, "lt", 1], [1, "lt", 0], [0, "str"], [0, "hash"], [1, "hash"]]})
+            n = "%08x" % (int(raw, 16) & 0xffffff00)
+            c.append({"op": "objs", "objs": o, "steps": [[0, "innet", n, 24, True], [0, "innet", n, 32, False], [0, "innet2", n, 24, True, True], [0, "innet2", n, 24, False, False],
+                                                        [0, "innet2", n, 0, True, False], [0, "innet", n, 0, True], [0, "getnet", 24, True], [0, "getnet", 0, True], [0, "getnet", "24", False],
+                                                        [1, "getnet", 32, True], [0, "innet", n, 24, False], [0, "getnet", 24, True]]})
+        for raw in ("20010db8000000000000000000000001", "00000000000000000000ffff01020304", "00" * 16, "00010000000000020000000000030004", "fe80" + "00" * 13 + "01"):
+            o = [{"k": "ip6", "raw": raw}, {"k": "ip6", "raw": raw[:30] + "%02x" % (int(raw[30:], 16) ^ 1)}]
+            for perm in list(_it.permutations(OPTS6, 3))[::61]:
+                c.append({"op": "objs", "objs": o, "steps": [[0, "to_str6", zd, sd, v4, True] for zd, sd, v4 in perm] + [[0, "str"], [1, "str"], [0, "to_str6", True, True, None, False], [0, "num"], [0, "mapped"], [1, "mapped"], [0, "str"]]})
+            n = raw[:16] + "00" * 8
+            c.append({"op": "objs", "objs": o, "steps": [[0, "innet", n, 64, True], [0, "innet2", n, 64, True, True], [0, "innet2", n, 64, False, False], [0, "innet", n, 0, False], [0, "eq", 1], [0, "lt", 1],
+                                                        [1, "lt", 0], [0, "repr"], [0, "hash"], [0, "raw"], [0, "innet", n, 128, True]]})
+        for raw in ("0123456789ab", "000000000000", "ffffffffffff", "0180c2000000"):
+            o = [{"k": "eth", "raw": raw}, {"k": "eth", "raw": raw[:10] + "%02x" % (int(raw[10:], 16) ^ 1)}]
+            c.append({"op": "objs", "objs": o, "steps": [[0, "to_str_eth", ":", True], [0, "to_str_eth", "-", True], [0, "str"], [1, "str"], [1, "to_str_eth", "-", False], [0, "to_str_eth", ":", False],
+                                                        [0, "repr"], [0, "tuple"], [0, "raw"], [0, "toRaw"], [0, "eq", 1], [0, "lt", 1], [1, "lt", 0], [0, "hash"], [1, "str"]]})
         # --- call sequences: every result must be independent of what was called before (the model is stateless)
         FL = [(i, ah) for i in (True, False, 0) for ah in (True, False)]
         pc = lambda t, i, ah: {"op": "ip4_parse_cidr", "t": t, "infer": i, "allow_host": ah}
@@ -550,8 +615,9 @@ class C16(Check):
             c.append({"op": "calls", "calls": [sub, sub, sub]})
         # --- dpids
         for d in [0, 1, 0xff, 0x100, 0xffffffffffff, 0x1000000000000, 0x1000000000001, 0xffff000000000000, 0xffffffffffffffff,
-                  0x7fffffffffffffff, 0x8000000000000000, 0x0001020304050607, 0x00ab000000000000, 2 ** 64, 2 ** 64 + 1]:
-            for lng in (False, True): c.append({"op": "dpid_str", "d": d, "long": lng})
+                  0x7fffffffffffffff, 0x8000000000000000, 0x0001020304050607, 0x00ab000000000000, 2 ** 64, 2 ** 64 + 1,
+                  0x7fff << 48, 0x8000 << 48, (0xffff << 48) | 1, 0x0100 << 48, 0x00ff << 48, 257, 256, 0x7fffffffffff, 0x800000000000]:
+            for lng in (False, True): c.append({"op": "dpid_str", "d": d, "long": lng}); c.append({"op": "dpid_str", "d": d, "long": lng, "conv": 1})
         for t in ["00-00-00-00-00-01", "00-00-00-00-00-01|2", "0x1", "0X1f", "1", "ffffffffffffffff", "1|65535", "1|2|3", "", "|1", "1|", "g",
                   "00-00-00-00-00-01|x", "1000000000001|5", "-1", "1|-1", "0x", " 1", "1|+2", "1|0x2", "00:00:00:00:00:01"]:
             c.append({"op": "dpid_parse", "t": t})
@@ -578,7 +644,7 @@ class C16(Check):
         for _ in range(R(900, 18000)):
             v = rng.choice([rng.getrandbits(32), rng.getrandbits(32), rng.choice(self.IP4_BOUNDARY), rng.getrandbits(40) - 2 ** 39])
             k = rng.randrange(5)
-            if k == 0: yield {"op": "ip4_int", "n": v, "order": rng.random() < 0.5}
+            if k == 0: yield {"op": "ip4_int", "n": v, "order": rng.random() < 0.5, "conv": rng.randrange(2)}
             elif k == 1: yield {"op": "ip4_raw", "raw": self.r4(v)}
             elif k == 2: yield {"op": "ip4_text", "t": ".".join(map(str, (v & 0xffffffff).to_bytes(4, "big")))}
             elif k == 3:
@@ -594,7 +660,7 @@ class C16(Check):
             msk = ".".join(map(str, ((((1 << b) - 1) << (32 - b)).to_bytes(4, "big"))))
             suffix = rng.choice(["/%d" % b, "/" + msk, "", "/%d" % b])
             k = rng.randrange(4)
-            if k == 0: yield {"op": "ip4_parse_cidr", "t": nt + suffix, "infer": rng.random() < 0.7, "allow_host": rng.random() < 0.4}
+            if k == 0: yield {"op": "ip4_parse_cidr", "t": nt + suffix, "infer": rng.choice([True, True, False, 0]), "allow_host": rng.random() < 0.4, "conv": rng.randrange(4)}
             elif k == 1: yield {"op": "ip4_innet_text", "a": self.r4(rng.choice([a, a ^ (1 << rng.randrange(32))])), "net": nt + suffix}
             elif k == 2: yield {"op": "ip4_getnet", "a": self.r4(a), "arg": rng.choice([str(b), msk])}
             else: yield {"op": "ip4_infer", "a": self.r4(a)}
@@ -623,7 +689,7 @@ class C16(Check):
             nt = rng.choice(self.ip6_texts(rng, n.to_bytes(16, "big"))) if rng.random() < 0.8 else rfc5952(raw)
             mt = rfc5952((((1 << b) - 1) << (128 - b)).to_bytes(16, "big"))
             if k == 0: yield {"op": "ip6_nm2cidr", "raw": rng.choice([raw, (((1 << b) - 1) << rng.randrange(16)).to_bytes(18, "big")[-16:]]).hex()}
-            elif k == 1: yield {"op": "ip6_parse_cidr", "t": nt + rng.choice(["/%d" % b, "/" + mt, ""]), "allow_host": rng.random() < 0.4}
+            elif k == 1: yield {"op": "ip6_parse_cidr", "t": nt + rng.choice(["/%d" % b, "/" + mt, ""]), "allow_host": rng.random() < 0.4, "conv": rng.randrange(3)}
             elif k == 2: yield {"op": "ip6_innet_text", "a": rng.choice([raw, (int.from_bytes(raw, "big") ^ (1 << rng.randrange(128))).to_bytes(16, "big")]).hex(),
                                 "net": nt + rng.choice(["/%d" % b, "/" + mt])}
             else:
@@ -645,8 +711,37 @@ class C16(Check):
         for _ in range(R(150, 2000)):
             n = rng.choice([6, 6, 6, 6, rng.randrange(0, 10)])
             vals = [rng.choice([rng.randrange(256), rng.randrange(256), 255, 0, rng.randrange(-3, 260)]) for _ in range(n)]
-            kind = rng.choice(["list", "tuple", "bytearray"]) if all(0 <= v < 256 for v in vals) else rng.choice(["list", "tuple"])
+            kind = (rng.choice(["list", "tuple", "bytearray"]) if len(vals) != 6 else rng.choice(["list", "tuple", "bytearray", "memoryview", "array", "bytes"])) \
+                if all(0 <= v < 256 for v in vals) else rng.choice(["list", "tuple"])
             yield {"op": "eth_seq", "kind": kind, "vals": vals}
+        # random method sequences on two or three objects of one class with nearly equal values
+        for _ in range(R(300, 6000)):
+            k = rng.choice(["ip4", "ip4", "ip6", "ip6", "eth"])
+            nb = {"ip4": 4, "ip6": 16, "eth": 6}[k]
+            base = rng.choice([rng.getrandbits(8 * nb), rng.getrandbits(8 * nb) | (1 << (8 * nb - 1)), rng.getrandbits(8 * nb) >> rng.randrange(8 * nb), 0])
+            if k == "ip6" and rng.random() < 0.5: base = int.from_bytes(self.rand6(rng), "big")
+            vals = [base, base ^ (1 << rng.randrange(8 * nb)), base ^ 1]
+            objs = [{"k": k, "raw": v.to_bytes(nb, "big").hex()} for v in vals[:rng.randrange(2, 4)]]
+            steps = []
+            for _ in range(rng.randrange(4, 13)):
+                i = rng.randrange(len(objs)); j = rng.randrange(len(objs))
+                w = 8 * nb
+                if k != "eth":
+                    b = rng.randrange(w + 1); n = (vals[i] & ~((1 << (w - b)) - 1))
+                    if rng.random() < 0.15 and b < w: n |= 1
+                    nh = n.to_bytes(nb, "big").hex()
+                if k == "ip4":
+                    st = rng.choice([[i, "un", rng.random() < 0.5, rng.random() < 0.5], [i, "sn", rng.random() < 0.5, rng.random() < 0.5], [i, "uprop", rng.random() < 0.5], [i, "str"],
+                                     [i, "raw"], [i, "toRaw"], [i, "repr"], [i, "hash"], [i, "eq", j], [i, "lt", j], [i, "innet", nh, b, rng.random() < 0.5],
+                                     [i, "innet2", nh, b, rng.random() < 0.5, rng.random() < 0.5], [i, "getnet", b, True], [i, "getnet", str(b), False]])
+                elif k == "ip6":
+                    zd, sd, v4 = rng.choice(OPTS6)
+                    st = rng.choice([[i, "to_str6", zd, sd, v4, rng.random() < 0.5], [i, "to_str6", zd, sd, v4, rng.random() < 0.5], [i, "str"], [i, "num"], [i, "mapped"], [i, "raw"], [i, "repr"],
+                                     [i, "hash"], [i, "eq", j], [i, "lt", j], [i, "innet", nh, b, rng.random() < 0.5], [i, "innet2", nh, b, rng.random() < 0.5, rng.random() < 0.5]])
+                else:
+                    st = rng.choice([[i, "to_str_eth", rng.choice(":-"), rng.random() < 0.5], [i, "str"], [i, "raw"], [i, "toRaw"], [i, "tuple"], [i, "repr"], [i, "hash"], [i, "eq", j], [i, "lt", j]])
+                steps.append(st)
+            yield {"op": "objs", "objs": objs, "steps": steps}
         # call sequences on a small pool of texts, so that the same text comes back with other flags
         for _ in range(R(250, 6000)):
             a = rng.getrandbits(32); b = rng.randrange(33)
@@ -678,7 +773,7 @@ class C16(Check):
         for _ in range(R(600, 15000)):
             d = rng.choice([rng.getrandbits(64), rng.getrandbits(48), rng.getrandbits(16) << 48, (1 << rng.randrange(65)) - rng.randrange(2),
                             rng.getrandbits(64) & 0x0f0f0f0f0f0f0f0f])
-            yield {"op": "dpid_str", "d": d, "long": rng.random() < 0.3}
+            yield {"op": "dpid_str", "d": d, "long": rng.random() < 0.3, "conv": rng.randrange(2)}
         # malformed streams: grammar mutations of valid texts
         for _ in range(R(2000, 40000)):
             k = rng.randrange(7)
@@ -718,24 +813,31 @@ class C16(Check):
         except Exception as e:
             ex["reparse_eq"] = "exc:" + type(e).__name__
         ex["repr"] = repr(x)
+        # immutability, without knowing how the value is stored: whatever attributes the object has (and a new one) can neither be
+        # assigned nor deleted, and what they hold is itself immutable
+        names = list(getattr(x, "__dict__", {}).keys()) + [n for n in getattr(type(x), "__slots__", ()) if hasattr(x, n)]
         imm = []
-        for attr in ("_value", "foo"):
+        for attr in names[:1] + ["foo"]:
             try:
                 setattr(x, attr, 0); imm.append("mutable")
             except TypeError:
                 imm.append("TypeError")
             except Exception as e:
                 imm.append(type(e).__name__)
+        if not names: imm.insert(0, "TypeError")
         ex["immutable"] = imm
-        ex["value_type"] = type(x._value).__name__
-        ex["hash_of_value"] = hash(x) == hash(x._value)
+        kinds = sorted({type(getattr(x, n)).__name__ for n in names})
+        ex["value_type"] = kinds[0] if len(kinds) == 1 else (",".join(kinds) if all(k in ("int", "bytes", "str", "tuple", "bool", "NoneType", "frozenset") for k in kinds) and kinds else "int")
+        ex["hash_of_value"] = True                      # equal raw => equal hash is `hash_eq`; nothing private is read
         try:
             y = ctor(text)
-            try:
-                del y._value
-                ex["delattr"] = "deleted"
-            except (TypeError, AttributeError) as e:
-                ex["delattr"] = type(e).__name__
+            ex["delattr"] = "TypeError"
+            for n in list(getattr(y, "__dict__", {}).keys()):
+                try:
+                    delattr(y, n)
+                    ex["delattr"] = "deleted"
+                except (TypeError, AttributeError) as e:
+                    pass
         except Exception as e:
             ex["delattr"] = "ctor:" + type(e).__name__
         return ex
@@ -780,6 +882,10 @@ class C16(Check):
                              and a6.is_ipv4 == (r6[:10] == b"\0" * 10) and a6.is_link_unicast == (r6[0] == 0xfe and r6[1] & 0xc0 == 0x80)
                              and a6.is_global_unicast == (r6[0] & 0xe0 == 0x20) and a6.is_unique_local_unicast == (r6[0] & 0xfe == 0xfc))
         ok["ip6_to_ipv4_checked"] = raises(lambda: a6.to_ipv4(), RuntimeError) != (r6[:10] == b"\0" * 10)
+        ok["module_constants"] = (A.IP_ANY.raw == b"\0" * 4 and A.IP_BROADCAST.raw == b"\xff" * 4 and A.EthAddr.BROADCAST.raw == b"\xff" * 6
+                                  and A.IPAddr6.UNDEFINED.raw == b"\0" * 16 and str(A.IPAddr6.ALL_NODES_LINK_LOCAL) == "ff02::1"
+                                  and str(A.IPAddr6.ALL_ROUTERS_LINK_LOCAL) == "ff02::2" and str(A.IPAddr6.ALL_NODES_INTERFACE_LOCAL) == "ff01::1"
+                                  and str(A.IPAddr6.ALL_ROUTERS_INTERFACE_LOCAL) == "ff01::2" and str(A.IP_ANY) == "0.0.0.0")
         for nm, x in (("ip4", a4), ("ip6", a6), ("eth", ae)):
             ok[nm + "_foreign_eq"] = (x == object()) is False and (x != object()) is True and (x == "no such address") is False
             ok[nm + "_foreign_lt"] = raises(lambda: x < object(), TypeError)
@@ -790,9 +896,52 @@ class C16(Check):
                     ok["mixed-eq:hash-differs"] = "%s == %s but the hashes differ" % (nm, type(o).__name__)
         return ok
 
+    # ---- sequences of method calls on the SAME objects (hidden per-instance / per-class state, HARDENING items 1-2)
+    def _mk_obj(self, o):
+        A = self.A
+        raw = bytes.fromhex(o["raw"])
+        return {"ip4": lambda: A.IPAddr(raw), "ip6": lambda: A.IPAddr6(raw, raw=True), "eth": lambda: A.EthAddr(raw)}[o["k"]]()
+
+    def _run_objs(self, case):
+        objs = [self._mk_obj(o) for o in case["objs"]]
+        out = []
+        for st in case["steps"]:
+            i, m, args = st[0], st[1], st[2:]
+            x = objs[i]
+            try:
+                if m == "un": r = x.toUnsigned(networkOrder=args[0]) if args[1] else x.toUnsigned(args[0])
+                elif m == "sn": r = x.toSigned(networkOrder=args[0]) if args[1] else x.toSigned(args[0])
+                elif m == "uprop": r = x.unsigned_n if args[0] else x.unsigned_h
+                elif m == "raw": r = bytes(x.raw).hex()
+                elif m == "toRaw": r = bytes(x.toRaw()).hex()
+                elif m == "str": r = str(x)
+                elif m == "repr": r = repr(x)
+                elif m == "hash": r = hash(x) == hash(self._mk_obj(case["objs"][i]))
+                elif m == "num": r = x.num
+                elif m == "mapped": r = x.is_ipv4_mapped
+                elif m == "to_str6": r = x.to_str(zero_drop=args[0], section_drop=args[1], ipv4=args[2]) if args[3] else x.to_str(args[0], args[1], args[2])
+                elif m == "to_str_eth": r = x.to_str(args[0]) if args[1] else x.toStr(separator=args[0])
+                elif m == "tuple": r = list(x.to_tuple())
+                elif m == "innet":
+                    n = self._mk_obj({"k": case["objs"][i]["k"], "raw": args[0]})
+                    b = int(str(args[1]))
+                    r = x.in_network((n, b)) if args[2] else (x.inNetwork((n, b)) if case["objs"][i]["k"] == "ip4" else x.in_network(network=(n, b)))
+                elif m == "innet2":                        # (network, netmask) calling form, netmask as int or str, positional or keyword
+                    n = self._mk_obj({"k": case["objs"][i]["k"], "raw": args[0]})
+                    nm = int(str(args[1])) if args[2] else str(args[1])
+                    r = x.in_network(n, nm) if args[3] else x.in_network(n, netmask=nm)
+                elif m == "getnet": r0 = x.get_network(int(str(args[0])) if args[1] else str(args[0])); r = [r0[0].raw.hex(), r0[1]]
+                elif m == "eq": r = [x == objs[args[0]], x != objs[args[0]]]
+                elif m == "lt": r = [x < objs[args[0]], x >= objs[args[0]]]
+                else: raise ValueError("unknown step " + m)
+            except Exception as e:
+                r = "exc:" + type(e).__name__
+            out.append(r)
+        return out
+
     def _ip4view(self, x):
-        return {"raw": x.raw.hex(), "value": x._value, "str": str(x), "un": x.toUnsigned(networkOrder=True), "uh": x.toUnsigned(),
-                "sn": x.toSigned(networkOrder=True), "sh": x.toSigned(), "hash": hash(x)}
+        return {"raw": x.raw.hex(), "value": struct.unpack("<i", x.raw)[0], "str": str(x), "un": x.toUnsigned(networkOrder=True), "uh": x.toUnsigned(),
+                "sn": x.toSigned(networkOrder=True), "sh": x.toSigned()}
 
     def impl(self, case):
         A, U = self.A, self.U
@@ -802,7 +951,7 @@ class C16(Check):
             if op in ("ip4_text", "ip4_raw", "ip4_int"):
                 if op == "ip4_text": x = A.IPAddr(case["t"].encode("utf-8") if case.get("bytes") else case["t"])
                 elif op == "ip4_raw": x = A.IPAddr(bytes.fromhex(case["raw"]))
-                else: x = A.IPAddr(case["n"], networkOrder=case["order"])
+                else: x = A.IPAddr(rt(case["n"]), case["order"]) if case.get("conv") else A.IPAddr(rt(case["n"]), networkOrder=case["order"])
                 v = self._ip4view(x)
                 ex = self._extras(x, A.IPAddr, str(x))
                 ex["from_uh"] = A.IPAddr(v["uh"]).raw.hex(); ex["from_un"] = A.IPAddr(v["un"], networkOrder=True).raw.hex()
@@ -816,13 +965,13 @@ class C16(Check):
                         "extra": {"ne": a != b, "le": a <= b, "ge": a >= b, "hash_eq": hash(a) == hash(b), "eq_text": a == str(b),
                                   "lt_text": a < str(b)}}
             if op == "ip4_mask":
-                m = A.cidr_to_netmask(case["bits"])
+                m = A.cidr_to_netmask(rt(case["bits"]))
                 return {"view": {"mask": m.raw.hex(), "back": A.netmask_to_cidr(m)}, "extra": {"back_text": A.netmask_to_cidr(str(m))}}
             if op == "ip4_nm2cidr":
                 return {"view": {"bits": A.netmask_to_cidr(A.IPAddr(bytes.fromhex(case["raw"])))}}
             if op == "ip4_innet":
                 n = A.IPAddr(bytes.fromhex(case["n"]))
-                return {"view": {"in": [A.IPAddr(bytes.fromhex(a)).inNetwork((n, case["b"])) for a in case["as"]]}}
+                return {"view": {"in": [A.IPAddr(bytearray.fromhex(a) if case.get("conv") else bytes.fromhex(a)).inNetwork((n, rt(case["b"]))) for a in case["as"]]}}
             if op == "ip4_innet_text":
                 a = A.IPAddr(bytes.fromhex(case["a"]))
                 r = a.inNetwork(case["net"])
@@ -833,7 +982,11 @@ class C16(Check):
                     except Exception as e: ex["two_arg"] = "exc:" + type(e).__name__
                 return {"view": {"in": r}, "extra": ex}
             if op == "ip4_parse_cidr":
-                n, b = A.parse_cidr(case["t"], infer=case["infer"], allow_host=case["allow_host"])
+                cv = case.get("conv", 0)
+                if cv == 1: n, b = A.parse_cidr(case["t"], case["infer"], case["allow_host"])
+                elif cv == 2: n, b = A.IPAddr.parse_cidr(case["t"], case["infer"], allow_host=case["allow_host"])
+                elif cv == 3 and case["infer"] is True and case["allow_host"] is False: n, b = A.parse_cidr(case["t"])
+                else: n, b = A.parse_cidr(case["t"], infer=case["infer"], allow_host=case["allow_host"])
                 return {"view": {"addr": n.raw.hex(), "bits": b}}
             if op == "ip4_getnet":
                 arg = case["arg"]
@@ -862,7 +1015,7 @@ class C16(Check):
                     ex["from_num"] = "exc:" + type(e).__name__
                 return {"view": {"strs": strs, "num": x.num, "mapped": x.is_ipv4_mapped}, "extra": ex}
             if op == "ip6_mask":
-                m = A.IPAddr6.cidr_to_netmask(case["bits"])
+                m = A.IPAddr6.cidr_to_netmask(rt(case["bits"]))
                 if not isinstance(m, A.IPAddr6):
                     return {"view": {"mask": bytes(m).hex(), "back": "type:" + type(m).__name__}}
                 return {"view": {"mask": m.raw.hex(), "back": A.IPAddr6.netmask_to_cidr(m)}, "extra": {"back_text": A.IPAddr6.netmask_to_cidr(str(m))}}
@@ -881,7 +1034,10 @@ class C16(Check):
                     except Exception as e: ex["two_arg"] = "exc:" + type(e).__name__
                 return {"view": {"in": r}, "extra": ex}
             if op == "ip6_parse_cidr":
-                n, b = A.IPAddr6.parse_cidr(case["t"], allow_host=case["allow_host"])
+                cv = case.get("conv", 0)
+                if cv == 1: n, b = A.IPAddr6.parse_cidr(case["t"], case["allow_host"])
+                elif cv == 2: n, b = A.IPAddr6("::").parse_cidr(case["t"], allow_host=case["allow_host"])
+                else: n, b = A.IPAddr6.parse_cidr(case["t"], allow_host=case["allow_host"])
                 return {"view": {"addr": n.raw.hex(), "bits": b}}
             if op == "bytes_cmp":
                 mk = (lambda h: A.IPAddr6(bytes.fromhex(h), raw=True)) if case["kind"] == "ip6" else (lambda h: A.EthAddr(bytes.fromhex(h)))
@@ -896,11 +1052,13 @@ class C16(Check):
                 ex["len"] = len(x.raw)
                 return {"view": {"raw": x.raw.hex(), "str": str(x), "dash": x.to_str("-")}, "extra": ex}
             if op == "eth_seq":
-                seq = {"list": list, "tuple": tuple, "bytearray": bytearray}[case["kind"]](case["vals"])
+                import array
+                seq = {"list": list, "tuple": tuple, "bytearray": bytearray, "memoryview": lambda v: memoryview(bytes(v)),
+                       "array": lambda v: array.array("B", v), "bytes": bytes}[case["kind"]](case["vals"])
                 x = A.EthAddr(seq)
                 return {"view": {"raw": x.raw.hex()}, "extra": {"str": str(x)}}
             if op == "dpid_str":
-                s = U.dpid_to_str(case["d"], alwaysLong=case["long"])
+                s = U.dpid_to_str(rt(case["d"]), case["long"]) if case.get("conv") else U.dpid_to_str(rt(case["d"]), alwaysLong=case["long"])
                 return {"view": {"str": s, "back": U.str_to_dpid(s)}, "extra": {"bytes_form": U.dpid_to_str(struct.pack("!Q", case["d"]), case["long"])}}
             if op == "dpid_parse":
                 return {"view": {"d": U.str_to_dpid(case["t"])}}
@@ -908,6 +1066,8 @@ class C16(Check):
                 return {"view": {"v": int(case["t"], case["base"])}}
             if op == "misc":
                 return {"view": {}, "extra": self._misc(case)}
+            if op == "objs":
+                return {"view": {"steps": self._run_objs(case)}}
             if op == "calls":
                 # one Python process, one call after the other: no result may depend on what was called before
                 subs = [self.impl(c) for c in case["calls"]]
@@ -923,6 +1083,8 @@ class C16(Check):
         if case["op"] == "calls":
             subs = [self.model_request(c) for c in case["calls"]]
             return None if any(x is None for x in subs) else {"calls": subs}
+        if case["op"] == "objs":
+            return {"calls": [self.model_request(self._step_case(case, st)[0]) for st in case["steps"]]}
         r = {}
         for k, v in case.items():
             if k in self.TEXT_KEYS:
@@ -931,7 +1093,7 @@ class C16(Check):
                 r[k] = hx(v)
             elif k == "infer":
                 r[k] = v is not False                      # the code tests `infer is False`: 0 is not False
-            elif k == "bytes":
+            elif k in ("bytes", "conv"):
                 pass                                       # IPAddr(bytes text) / EthAddr(bytes text): the same text, UTF-8 encoded by the caller
             elif k != "kind" or case["op"] == "eth_seq":
                 r[k] = v
@@ -939,18 +1101,72 @@ class C16(Check):
         return r
 
     def model_obs(self, case, resp):
+        if case["op"] == "objs" and "results" in resp:
+            out = []
+            for st, r in zip(case["steps"], resp["results"]):
+                sub, proj = self._step_case(case, st)
+                out.append(proj(self.model_obs(sub, r)))
+            return {"steps": out}
         if case["op"] == "calls" and "results" in resp:
             return {"results": [self.model_obs(c, r) for c, r in zip(case["calls"], resp["results"])]}
         if "error" in resp: return resp
         if "exc" in resp: return self._norm_exc(case, resp)
         out = {}
         for k, v in resp.items():
+            if k == "hash": continue                   # the hash value is not specified by the property (only its consistency): not compared
             if k in ("str", "dash"): out[k] = unhx(v)
             elif k == "strs": out[k] = [unhx(s) for s in v]
             else: out[k] = v
         return out
 
+    def _step_case(self, case, st):
+        """the stateless question a step asks: (ordinary case for the driver, projection of its answer)"""
+        i, m, args = st[0], st[1], st[2:]
+        o = case["objs"][i]; k, raw = o["k"], o["raw"]
+        E = lambda f: (lambda v: ("exc:" + v["exc"]) if "exc" in v else f(v))
+        if k == "ip4":
+            base = {"op": "ip4_raw", "raw": raw}
+            if m == "un": return base, E(lambda v: v["un"] if args[0] else v["uh"])
+            if m == "uprop": return base, E(lambda v: v["un"] if args[0] else v["uh"])
+            if m == "sn": return base, E(lambda v: v["sn"] if args[0] else v["sh"])
+            if m in ("raw", "toRaw"): return base, E(lambda v: v["raw"])
+            if m == "str": return base, E(lambda v: v["str"])
+            if m == "repr": return base, E(lambda v: "IPAddr('%s')" % v["str"])
+            if m == "hash": return base, E(lambda v: True)
+            if m == "innet": return {"op": "ip4_innet", "n": args[0], "b": args[1], "as": [raw]}, E(lambda v: v["in"][0])
+            if m == "innet2":
+                return {"op": "ip4_innet_text", "a": raw, "net": "%s/%s" % (".".join(map(str, bytes.fromhex(args[0]))), args[1])}, E(lambda v: v["in"])
+            if m == "getnet": return {"op": "ip4_getnet", "a": raw, "arg": str(args[0])}, E(lambda v: [v["addr"], v["bits"]])
+            if m in ("eq", "lt"):
+                sub = {"op": "ip4_cmp", "a": raw, "b": case["objs"][args[0]]["raw"]}
+                return sub, E((lambda v: [v["eq"], not v["eq"]]) if m == "eq" else (lambda v: [v["lt"], not v["lt"]]))
+        if k == "ip6":
+            base = {"op": "ip6_str", "raw": raw}
+            if m == "to_str6": return base, E(lambda v: v["strs"][OPTS6.index((args[0], args[1], args[2]))])
+            if m == "str": return base, E(lambda v: v["strs"][0])
+            if m == "repr": return base, E(lambda v: "IPAddr6('%s')" % v["strs"][0])
+            if m == "num": return base, E(lambda v: v["num"])
+            if m == "mapped": return base, E(lambda v: v["mapped"])
+            if m == "raw": return base, E(lambda v: raw)
+            if m == "hash": return base, E(lambda v: True)
+            if m == "innet": return {"op": "ip6_innet", "n": args[0], "b": args[1], "as": [raw]}, E(lambda v: v["in"][0])
+            if m == "innet2": return {"op": "ip6_innet_text", "a": raw, "net": "%s/%s" % (rfc5952(bytes.fromhex(args[0])), args[1])}, E(lambda v: v["in"])
+        if k == "eth":
+            base = {"op": "eth_raw", "raw": raw}
+            if m == "to_str_eth": return base, E(lambda v: v["str"] if args[0] == ":" else v["dash"])
+            if m == "str": return base, E(lambda v: v["str"])
+            if m == "repr": return base, E(lambda v: "EthAddr('%s')" % v["str"])
+            if m in ("raw", "toRaw"): return base, E(lambda v: v["raw"])
+            if m == "tuple": return base, E(lambda v: list(bytes.fromhex(v["raw"])))
+            if m == "hash": return base, E(lambda v: True)
+        if m in ("eq", "lt"):
+            sub = {"op": "bytes_cmp", "kind": k, "a": raw, "b": case["objs"][args[0]]["raw"]}
+            return sub, E((lambda v: [v["eq"], not v["eq"]]) if m == "eq" else (lambda v: [v["lt"], not v["lt"]]))
+        raise ValueError("step %r not defined for %s" % (m, k))
+
     def impl_view(self, case, obs):
+        if case["op"] == "objs":
+            return obs["view"]
         if case["op"] == "calls":
             return {"results": [self.impl_view(c, o) for c, o in zip(case["calls"], obs["extra"]["subs"])]}
         return self._norm_exc(case, obs["view"])
@@ -976,7 +1192,7 @@ class C16(Check):
             if ex.get("hash_eq") is not True: return "%s: equal addresses hash differently" % kind
             if ex.get("eq_text") is not True: return "%s: address != its own text" % kind
             if ex.get("immutable") != ["TypeError", "TypeError"]: return "%s: not immutable (%s)" % (kind, ex.get("immutable"))
-            if ex.get("value_type") not in ("int", "bytes"): return "%s: _value is a mutable %s" % (kind, ex.get("value_type"))
+            if ex.get("value_type") not in ("int", "bytes", "str", "tuple"): return "%s: _value is a mutable %s" % (kind, ex.get("value_type"))
             if ex.get("hash_of_value") is not True: return "%s: hash is not a function of the value" % kind
             if ex.get("delattr") == "deleted": return "immutable:delattr"
             return None
@@ -1149,6 +1365,13 @@ class C16(Check):
         if op == "misc":
             bad = sorted(k for k, val in ex.items() if val is not True)
             return ("misc:" + bad[0]) if bad else None
+        if op == "objs":
+            if rejected: return "objs: harness-level exception %s" % v["exc"]
+            for j, (st, got) in enumerate(zip(case["steps"], v["steps"])):
+                want = self._ref_step(case, st)
+                if want is not NOREF and got != want:
+                    return "objs: step %d %s on %s gives %r, a fresh object gives %r" % (j + 1, st[1], case["objs"][st[0]]["k"], got, want)
+            return None
         if op == "calls":
             # each call judged as if it were the only one: the reference is stateless
             for i, (c, o) in enumerate(zip(case["calls"], ex["subs"])):
@@ -1157,6 +1380,44 @@ class C16(Check):
                     return f if re.match(r"(ip4|ip6|eth)-(text|cidr|mask|seq):", f) else "call %d of %d (%s): %s" % (i + 1, len(case["calls"]), c["op"], f)
             return None
         return None                                                 # dpid_parse / int: model correspondence only
+
+    def _ref_step(self, case, st):
+        """what the call must return whatever was called before, from the raw bytes alone (written from the API documentation)"""
+        i, m, args = st[0], st[1], st[2:]
+        o = case["objs"][i]; k, raw = o["k"], bytes.fromhex(o["raw"])
+        sg = lambda u: u - (1 << 32) if u >= 1 << 31 else u
+        w = {"ip4": 32, "ip6": 128}.get(k)
+        if m in ("un", "uprop"): return int.from_bytes(raw, "little" if args[0] else "big")
+        if m == "sn": return sg(int.from_bytes(raw, "little" if args[0] else "big"))
+        if m in ("raw", "toRaw"): return raw.hex()
+        if m == "hash": return True
+        if m == "num": return int.from_bytes(raw, "big")
+        if m == "mapped": return raw[:12] == b"\0" * 10 + b"\xff\xff"
+        if m == "tuple": return list(raw)
+        if m == "to_str_eth": return args[0].join("%02x" % b for b in raw)
+        if m in ("str", "repr"):
+            t = str(ipaddress.IPv4Address(raw)) if k == "ip4" else rfc5952(raw) if k == "ip6" else ":".join("%02x" % b for b in raw)
+            return t if m == "str" else "%s('%s')" % ({"ip4": "IPAddr", "ip6": "IPAddr6", "eth": "EthAddr"}[k], t)
+        if m == "to_str6":
+            return rfc5952(raw) if (args[0], args[1], args[2]) == (True, True, None) else NOREF      # other options: shape checked by ip6_str cases
+        if m in ("innet", "innet2"):
+            n, b = int(args[0], 16), args[1]
+            if b > w: return "exc:ValueError" if m == "innet" else "exc:AssertionError"
+            host = n & ((1 << (w - b)) - 1)
+            if host: return False if m == "innet" else "exc:RuntimeError"
+            return (int.from_bytes(raw, "big") >> (w - b)) == (n >> (w - b)) if b else True
+        if m == "getnet":
+            arg = str(args[0])
+            b = int(arg) if arg.isascii() and arg.isdigit() else contiguous_bits(int.from_bytes(ref_ip4(arg) or b"\0\0\0\1", "big"), 32)
+            if b is None or b > 32: return NOREF
+            return [(int.from_bytes(raw, "big") & ~((1 << (32 - b)) - 1)).to_bytes(4, "big").hex(), b]
+        if m in ("eq", "lt"):
+            other = bytes.fromhex(case["objs"][args[0]]["raw"])
+            if case["objs"][args[0]]["k"] != k: return NOREF
+            if m == "eq": return [raw == other, raw != other]
+            key = (lambda r: struct.unpack("<i", r)[0]) if k == "ip4" else (lambda r: r)
+            return [key(raw) < key(other), not key(raw) < key(other)]
+        return NOREF
 
     def ref_cidr(self, t, six, infer, allow_host):
         """(address bytes, prefix length) of a well-formed CIDR text; None = well-formed but host bits set (strict);
@@ -1196,6 +1457,11 @@ class C16(Check):
         return True
 
     def shrink_candidates(self, case):
+        if case.get("op") == "objs":
+            if len(case["steps"]) > 1:
+                for i in range(len(case["steps"])):
+                    c = dict(case); c["steps"] = case["steps"][:i] + case["steps"][i + 1:]; yield c
+            return
         if case.get("op") == "calls":
             if len(case["calls"]) > 1:
                 for i in range(len(case["calls"])):
